@@ -5290,16 +5290,18 @@ class System(object, metaclass=SystemMetaclass):
             filt = self._filtered_vars_to_record
 
             data = {'input': {}, 'output': {}, 'residual': {}}
-            if options['record_inputs'] and (inputs._names or len(discrete_inputs) > 0):
-                data['input'] = self._retrieve_data_of_kind(filt, 'input', vec_name, local)
+            # iterations are recorded while the vectors are in the scaled state; record physical values
+            with self._unscaled_context(outputs=[outputs], residuals=[residuals]):
+                if options['record_inputs'] and (inputs._names or len(discrete_inputs) > 0):
+                    data['input'] = self._retrieve_data_of_kind(filt, 'input', vec_name, local)
 
-            if options['record_outputs'] and (outputs._names or len(discrete_outputs) > 0):
-                data['output'] = self._retrieve_data_of_kind(filt, 'output', vec_name, local)
+                if options['record_outputs'] and (outputs._names or len(discrete_outputs) > 0):
+                    data['output'] = self._retrieve_data_of_kind(filt, 'output', vec_name, local)
 
-            if options['record_residuals'] and residuals._names:
-                data['residual'] = self._retrieve_data_of_kind(filt, 'residual', vec_name, local)
+                if options['record_residuals'] and residuals._names:
+                    data['residual'] = self._retrieve_data_of_kind(filt, 'residual', vec_name, local)
 
-            self._rec_mgr.record_iteration(self, data, metadata)
+                self._rec_mgr.record_iteration(self, data, metadata)
 
         # All calls to _solve_nonlinear are recorded, The counter is incremented after recording.
         self.iter_count += 1
